@@ -137,7 +137,14 @@ def run(tier, seed):
                        "samples": [s for o in outs for s in o["samples"]][:8] or [{"note": "none"}],
                        "classes": classes, "classes_in_domain": indom, "programs": len(accept) + 1, "bounded": True,
                        "proved_for_fixed_size_classes": proved},
-          "assumptions": ["bounded stand-in, not a proof", "xmlsem.c01_domain is a conservative reading of 'wire-unambiguous'"],
+          "assumptions": ["bounded stand-in for the classes listed under classes_outside_the_proof_fragment and for the property as a whole",
+                          "xmlsem.c01_domain is a conservative reading of 'wire-unambiguous'",
+                          "proved part: bytes = WIRE_T(obj) is C02; reader operations are the C05 contracts; DEC(ENC_k(v)) = v (C07), "
+                          "cut-padding / decode(encode(x)) = x / cp1252 image (C04, C08) enter as ground lemma instances; in-domain "
+                          "objects contain no 0xFF inside or ahead of chunked sections other than breaks and delimiters (C06)",
+                          "split property of a fold of equal-size blocks (ground instances at the loop index) for arrays with a "
+                          "symbolic element count: assumed, not proved",
+                          "z3 sequence theory; sat answers only count when the model validates"],
           "wall_s": round(time.time() - t0, 2), "violations": len(failures)}
     with open(os.path.join(VERIF, "evidence", "C01.json"), "w") as f:
         json.dump(ev, f, indent=1, default=str)
